@@ -158,7 +158,29 @@ def c04(run):
     run.rc = run.finish(assumptions=CRYPTO_ASSUME)
 
 
-PROPS = {"C01": c01, "C02": c02, "C03": c03, "C04": c04, "C06": c06, "C07": c07, "C08": c08}
+def c05(run):
+    run.selftest()
+    cases = os.path.join(run.scratch, "securelink-cases.ndjson")
+    run.design_check("SecureLink", workers=1, env={"VERIF_GEN": run.tier, "VERIF_CASES": cases}, xmx="8g")
+    n = dedupe_cases(cases)
+    verdicts = {}
+    for ln in open(cases):
+        d = json.loads(ln)
+        k = (d["exp"]["verdict"], d["exp"]["equal"])
+        verdicts[k] = verdicts.get(k, 0) + 1
+    if not all(verdicts.get(k, 0) > 0 for k in [("T", True), ("F", True), ("F", False), ("T", False)]):
+        raise MachineryError("SecureLink vacuity guard: outcome classes %s" % verdicts)
+    run.coverage_extra["securelink_maximal_behaviours"] = n
+    run.coverage_extra["securelink_outcomes"] = {"%s/%s" % k: v for k, v in verdicts.items()}
+    t = run.record("link", "cases", cases=cases, n=T(run, 700, 24000))
+    run.validate("link", t, "Trace_link", label="(R) SecureLink behaviours on real PHYPayload values", chunk=T(run, 360, 800))
+    t = run.record("link", "flips", n=T(run, 8, 160))
+    run.validate("link", t, "Trace_link", label="(V) every single-bit corruption of serialised frames", chunk=T(run, 160, 300))
+    run.require_kinds("link/linkend", "link/flip", "link/method", "link/validate", "link/wire", "link/unwire", "link/setmic")
+    run.rc = run.finish(assumptions=CRYPTO_ASSUME + ["behaviours replayed are a seeded sample of the model's maximal behaviours (all of them are checked on the model)"])
+
+
+PROPS = {"C01": c01, "C05": c05, "C02": c02, "C03": c03, "C04": c04, "C06": c06, "C07": c07, "C08": c08}
 
 
 def replay(run, path):
